@@ -141,3 +141,75 @@ KERNELS += [
     K("src_ls_min_max_iterations", _LK,
       r"make_integer\(\"lsearchk::max_iterations\",\s*(\d+),\s*LE,\s*\d+,\s*LE,\s*\d+\)", [], [], "c07", ["C07"]),
 ]
+
+# ---- INIT extension: the step-length initialisers lsearch0_t (src/lsearch0/*.cpp, src/lsearch0.cpp), the convexity flag of
+# lsearch_step_t::quadratic and the initial m_last_step_size of lsearch_t (include/nano/solver/lsearch.h) ----------------
+_L0 = "src/lsearch0.cpp"
+_L0C = "src/lsearch0/constant.cpp"
+_L0L = "src/lsearch0/linear.cpp"
+_L0Q = "src/lsearch0/quadratic.cpp"
+_L0G = "src/lsearch0/cgdescent.cpp"
+_L0A = [(r"state\.gx\(\)\.lpNorm<Eigen::Infinity>\(\)", "ginf"), (r"state\.gx\(\)\.squaredNorm\(\)", "gsq"),
+        (r"std::fabs\(state\.fx\(\)\)", "afx"), (r"state\.fx\(\)", "fx"), (r"state\.dg\(descent\)", "dg"),
+        (r"state\.x\(\)", "x"), (r"\bdescent\b", "d"), (r"stepx\.f", "fxt"), (r"step0\.f", "f0"),
+        (r"\b(\d+)\.0\b", r"\1"), (r"\b1e\+6\b", "1000000")]
+_FIRST = r"if \((last_step_size\s*<[^)]*)\)"
+_FIRST_T0 = r"if \(last_step_size\s*<[^)]*\)\s*\{\s*t0\s*=\s*(.*?);"
+
+KERNELS += [
+    # constant.cpp
+    K("src_l0const_ret", _L0C, r"lsearch0_constant_t::get\(.*?return\s+(.*?);", _L0A, [("t0", "Z")], "c07", ["C07"]),
+    # linear.cpp
+    K("src_l0lin_first", _L0L, _FIRST, _L0A, [("last_step_size", "Z")], "c07", ["C07"]),
+    K("src_l0lin_t0first", _L0L, _FIRST_T0, _L0A, [], "c07", ["C07"]),
+    K("src_l0lin_t0", _L0L, r"\}\s*else\s*\{\s*t0\s*=\s*(.*?);", _L0A,
+      [("alpha", "Z"), ("last_step_size", "Z"), ("m_prevdg", "Z"), ("beta", "Z"), ("epsilon", "Z"), ("dg", "Z")],
+      "c07", ["C07"]),
+    K("src_l0lin_dg", _L0L, r"const auto dg\s*=\s*(.*?);", _L0A, [("dg", "Z")], "c07", ["C07"]),
+    K("src_l0lin_prevdg", _L0L, r"\bm_prevdg\s*=\s*(.*?);\s*return t0;", _L0A, [("dg", "Z")], "c07", ["C07"]),
+    K("src_l0lin_prevdg0", "src/lsearch0/linear.h", r"scalar_t\s+m_prevdg\{(.*?)\};", _L0A, [], "c07", ["C07"]),
+    # quadratic.cpp
+    K("src_l0quad_first", _L0Q, _FIRST, _L0A, [("last_step_size", "Z")], "c07", ["C07"]),
+    K("src_l0quad_t0first", _L0Q, _FIRST_T0, _L0A, [], "c07", ["C07"]),
+    K("src_l0quad_t0", _L0Q, r"\}\s*else\s*\{\s*t0\s*=\s*(.*?);", _L0A,
+      [("alpha", "Z"), ("m_prevf", "Z"), ("fx", "Z"), ("beta", "Z"), ("epsilon", "Z"), ("m_prevdg", "Z")],
+      "c07", ["C07"]),
+    K("src_l0quad_prevf", _L0Q, r"\}\s*m_prevf\s*=\s*(.*?);", _L0A, [("fx", "Z")], "c07", ["C07"]),
+    K("src_l0quad_prevdg", _L0Q, r"\bm_prevdg\s*=\s*(.*?);\s*return t0;", _L0A, [("dg", "Z")], "c07", ["C07"]),
+    K("src_l0quad_prevf0", "src/lsearch0/quadratic.h", r"scalar_t\s+m_prevf\{(.*?)\};", _L0A, [], "c07", ["C07"]),
+    K("src_l0quad_prevdg0", "src/lsearch0/quadratic.h", r"scalar_t\s+m_prevdg\{(.*?)\};", _L0A, [], "c07", ["C07"]),
+    # cgdescent.cpp: first call (Hager-Zhang I0), later calls (I1-I2: one value-only trial evaluation)
+    K("src_l0cg_first", _L0G, _FIRST, _L0A, [("last_step_size", "Z")], "c07", ["C07"]),
+    K("src_l0cg_fnorm", _L0G, r"const auto fnorm\s*=\s*(.*?);", _L0A, [("afx", "Z")], "c07", ["C07"]),
+    K("src_l0cg_xpos", _L0G, r"if \((xnorm\s*>[^)]*)\)", _L0A, [("xnorm", "Z")], "c07", ["C07"]),
+    K("src_l0cg_t0x", _L0G, r"if \(xnorm\s*>[^)]*\)\s*\{\s*t0\s*=\s*(.*?);", _L0A,
+      [("phi0", "Z"), ("xnorm", "Z"), ("ginf", "Z")], "c07", ["C07"]),
+    K("src_l0cg_fpos", _L0G, r"else if \((fnorm\s*>[^)]*)\)", _L0A, [("fnorm", "Z")], "c07", ["C07"]),
+    K("src_l0cg_t0f", _L0G, r"else if \(fnorm\s*>[^)]*\)\s*\{\s*t0\s*=\s*(.*?);", _L0A,
+      [("phi0", "Z"), ("fnorm", "Z"), ("gsq", "Z")], "c07", ["C07"]),
+    K("src_l0cg_t0one", _L0G, r"else if \(fnorm\s*>[^)]*\)\s*\{[^}]*\}\s*else\s*\{\s*t0\s*=\s*(.*?);", _L0A, [], "c07", ["C07"]),
+    K("src_l0cg_prevt", _L0G, r"const auto\s+prevt\s*=\s*(.*?);", _L0A, [("last_step_size", "Z")], "c07", ["C07"]),
+    K("src_l0cg_trial_step", _L0G, r"const auto\s+stepx\s*=\s*lsearch_step_t\{(.*?),", _L0A,
+      [("prevt", "Z"), ("phi1", "Z")], "c07", ["C07"]),
+    K("src_l0cg_trial_x", _L0G, r"const auto\s+trial\s*=\s*vector_t\{(.*?)\};", _L0A,
+      [("x", "Z"), ("prevt", "Z"), ("phi1", "Z"), ("d", "Z")], "c07", ["C07"]),
+    K("src_l0cg_accept", _L0G, r"lsearch_step_t::quadratic\(step0, stepx, &convexity\);\s*if \((.*?)\)\s*\{", _L0A,
+      [("fxt", "Z"), ("f0", "Z"), ("convexity", "bool")], "c07", ["C07"]),
+    K("src_l0cg_t0grow", _L0G, r"t0\s*=\s*tq;\s*\}\s*else\s*\{\s*t0\s*=\s*(.*?);", _L0A,
+      [("last_step_size", "Z"), ("phi2", "Z")], "c07", ["C07"]),
+    # lstep.cpp: the strong-convexity flag of the quadratic interpolant
+    K("src_quadratic_convexity", _LS, r"\*convexity\s*=\s*(.*?);", _UV, [("dt", "Z"), ("ug", "Z"), ("df", "Z")], "c07", ["C07"]),
+    # lsearch.h: m_last_step_size{-1.0}
+    K("src_ls_last0", "include/nano/solver/lsearch.h", r"scalar_t\s+m_last_step_size\{(.*?)\};", _L0A, [], "c07", ["C07"]),
+]
+
+# registered parameter domains `lo LT default LT hi` of the lsearch0 parameters (integral bounds; defaults are decimals)
+for _nm, _file, _par in (("eps", _L0, "lsearch0::epsilon"), ("const_t0", _L0C, "lsearch0::constant::t0"),
+                         ("lin_beta", _L0L, "lsearch0::linear::beta"), ("lin_alpha", _L0L, "lsearch0::linear::alpha"),
+                         ("quad_beta", _L0Q, "lsearch0::quadratic::beta"), ("quad_alpha", _L0Q, "lsearch0::quadratic::alpha"),
+                         ("cg_phi0", _L0G, "lsearch0::cgdescent::phi0"), ("cg_phi1", _L0G, "lsearch0::cgdescent::phi1"),
+                         ("cg_phi2", _L0G, "lsearch0::cgdescent::phi2")):
+    KERNELS += [
+        K("src_l0dom_%s_lo" % _nm, _file, r"make_scalar\(\"%s\",\s*([^,]*?),\s*LT,\s*[^,]*?,\s*LT,\s*[^,)]*?\)" % _par, _L0A, [], "c07", ["C07"]),
+        K("src_l0dom_%s_hi" % _nm, _file, r"make_scalar\(\"%s\",\s*[^,]*?,\s*LT,\s*[^,]*?,\s*LT,\s*([^,)]*?)\)" % _par, _L0A, [], "c07", ["C07"]),
+    ]
